@@ -115,6 +115,24 @@ pub fn run(args: &[&str]) -> String {
                         reference.insert(text.clone(), raw);
                     }
                 }
+                // the implementation's own `==` on handles agrees with equality of the texts
+                {
+                    let total = if kind == "str" { handles_s.len() } else { handles_p.len() };
+                    let step = if total <= 96 { 1 } else { total / 48 };
+                    let mut i = 0;
+                    while i + 1 < total {
+                        let (eq_h, eq_t) = if kind == "str" {
+                            (handles_s[i].0 == handles_s[total - 1].0, handles_s[i].1 == handles_s[total - 1].1)
+                        } else {
+                            (handles_p[i].0 == handles_p[total - 1].0, handles_p[i].1 == handles_p[total - 1].1)
+                        };
+                        if eq_h != eq_t {
+                            tr.problems.push(format!("op {n}: handles {i} and {} compare {} but their texts are {}", total - 1,
+                                if eq_h { "equal" } else { "different" }, if eq_t { "equal" } else { "different" }));
+                        }
+                        i += step.max(1);
+                    }
+                }
                 // every handle still resolves to its text
                 let total = if kind == "str" { handles_s.len() } else { handles_p.len() };
                 let step = if total <= 64 { 1 } else { total / 32 };
